@@ -40,6 +40,7 @@ fn main() {
         std::process::exit(vcheck::replay::replay(&prop, &path));
     }
     let run = match prop.as_str() {
+        "C05" => vcheck::checks::c05::run(tier),
         "C08" => vcheck::checks::c08::run(tier),
         "C09" => vcheck::checks::c09::run(tier),
         "C11" => vcheck::checks::c11::run(tier),
